@@ -218,7 +218,19 @@ void mutex::unlock()
     owner = -1;
     return;
   }
-  std::unique_lock<real_mutex> lk(g.m);
+  {
+    std::unique_lock<real_mutex> lk(g.m);
+    owner = -1;
+    for (auto &t : g.ts)
+      if (t->st == BLK_MUTEX && t->on == this)
+        t->st = RUNNABLE;
+  }
+  // releasing a lock is a schedule point as well: another thread may run between the unlock and the
+  // unlocking thread's next (possibly unsynchronised) access
+  point(K_UNLOCK, this);
+}
+void mutex::release_in_wait()
+{
   owner = -1;
   for (auto &t : g.ts)
     if (t->st == BLK_MUTEX && t->on == this)
@@ -230,6 +242,7 @@ void condition_variable::wait(std::unique_lock<mutex> &ul)
     return;
   point(K_CVWAIT, this);
   uint64_t ord;
+  mutex *m = ul.mutex();
   {
     std::unique_lock<real_mutex> lk(g.m);
     ord = g.out.cvwaits++;
@@ -240,19 +253,20 @@ void condition_variable::wait(std::unique_lock<mutex> &ul)
     {
       std::unique_lock<real_mutex> lk(g.m);
       g.out.spurious++;
+      m->release_in_wait();
     }
-    ul.unlock();
     point(K_SPURIOUS, this);
-    ul.lock();
+    m->lock();
     return;
   }
-  ul.unlock();
   {
+    // releasing the mutex, registering as a waiter and blocking are one atomic step, as the standard requires
     std::unique_lock<real_mutex> lk(g.m);
+    m->release_in_wait();
     waiters.push_back(tl_self);
     block(lk, BLK_CV, this);
   }
-  ul.lock();
+  m->lock();
 }
 void condition_variable::notify_all()
 {
